@@ -1,83 +1,163 @@
 """C08 -- poll: one poll at a time, exact descriptor set, first yield wins, prompt polls.
 
+Evaluated on entry points with a stable identity: the poll thread's target, the callbacks PollFuture registers in
+its constructor (on its delegate and on itself), cancel(), the public notify() / yield_result() / yield_exception()
+/ set_result() ..., with all private helpers inlined.  No private helper is referred to by name.
+
 Decided:
-  R-SINGLE    the poll function is called from exactly one place, reached only from the poll loop, which is the
-              target of exactly one thread per executor
-  R-SNAPSHOT  _run_poll_fn snapshots the descriptors under the executor lock, calls the poll function outside it
-              with that snapshot, and on failure fails exactly the descriptors of that same snapshot with the
-              exception that was raised; its return value is the poll function's
+  R-SINGLE    the poll function is called only on paths of the poll thread (never from submit, cancel, callbacks),
+              and the poll loop is the target of exactly one thread per executor
+  R-SNAPSHOT  per iteration: the descriptors handed to the poll function are read from the registered entries
+              under the executor lock; the poll function runs outside it; on failure exactly the descriptors of
+              that same snapshot are failed, with the exception that was raised; the wait interval is the poll
+              function's numeric return value, else the default
   R-GUARDED   the descriptor list is only mutated / re-bound under the executor lock
   R-REGISTER  a future enters the polling stage only from the success branch of its delegate callback, once, with
-              a descriptor carrying the delegate's result; it leaves it from its own done-callback (registered in
-              the constructor), which removes exactly that future
-  R-FIRSTWINS yield_result / yield_exception go through tolerant setters; PollFuture's setters ignore a second
-              outcome (done-guard under the future's lock)
-  R-VETO      the cancel function is consulted only for futures in the polling stage, with the delegate's result;
-              False or an exception vetoes the cancel
+              a descriptor carrying the delegate's result, its delegate link dropped after the entry is in the
+              list; it leaves it from its own done-callback (registered in the constructor), which removes
+              exactly that future
+  R-FIRSTWINS yield_result / yield_exception go through tolerant setters on the descriptor's own future;
+              PollFuture's setters ignore a second outcome (done-guard and transition in one lock hold)
+  R-VETO      cancel(): a delegate that cannot be cancelled vetoes; the cancel function is consulted only for
+              futures in the polling stage, with the delegate's result; False or an exception vetoes
   R-WAKE-*    registration and notify() set the poll event; the loop re-scans between clear() and wait()
-Not decided: the exact descriptor set at every instant (follows from R-SNAPSHOT + R-REGISTER + lock rules);
-promptness as real time.
+Not decided: the exact descriptor set at every instant; promptness as real time.
 """
 from ..core import where_of, trace_of
 from ..interp import fmt, contains, subterms
-from ..model import AnalysisError
+from ..model import AnalysisError, ClassInfo
 from .. import q
 from .. import wake
+from ..roles import std_inline, bound, container_of, registered_callbacks
 from .c03 import terminal_on
+from .c02 import _no_cb_inline
+
+SELF = ("param", "self")
+DEPTH = 6
+
+
+def roles(ctx):
+    prog = ctx.prog
+    pex = prog.cls("PollExecutor")
+    pf = prog.cls("PollFuture")
+    loops = [l for l in wake.discover(ctx) if l.owner is pex]
+    if len(loops) != 1 or len(loops[0].scanned) != 1:
+        raise AnalysisError("PollExecutor: worker loop / descriptor list not identified")
+    li = loops[0]
+    cbs = registered_callbacks(ctx, pf)
+    dcb = own = None
+    for key, (m, recv) in cbs.items():
+        if recv == SELF:
+            own = m
+        else:
+            dcb = m
+    if dcb is None or own is None:
+        raise AnalysisError("PollFuture: constructor-registered callbacks not found (delegate: %s, own: %s)" % (dcb, own))
+    return pex, pf, li, dcb, own
+
+
+def snapshot_rule(ctx, rep):
+    """shared with C01: a poll failure is routed to exactly the futures that poll call was shown"""
+    pex, pf, li, dcb, own = roles(ctx)
+    rep.rule("R-SNAPSHOT", "per poll: the argument of the poll function is derived from the registered entries read under the executor lock; the poll function runs outside that lock; on exception every descriptor of *that* argument gets yield_exception(<the caught exception>); the wait interval is the poll function's numeric result, else the default")
+    DF = sorted(li.scanned)[0]
+    ps, it = ctx.paths(li.target, li.target.owner, depth=DEPTH, inline=std_inline, maxpaths=20000)
+    X = li.exec_term
+    XD = ("attr", X, DF)
+    kinds = set()
+    for p in ps:
+        ucalls = [e for e in p.calls() if e.d.get("user")]
+        if not ucalls:
+            continue
+        rep.ob("R-SNAPSHOT", "poll loop: one poll function call per iteration", len(ucalls) == 1, "%d user calls in one iteration" % len(ucalls), where_of(li.target), trace_of(p))
+        u = ucalls[0]
+        arg = u.d["args"][0] if len(u.d["args"]) == 1 else None
+        argd = q.deref(p, arg) if arg is not None else None
+        src = None
+        proj_ok = False
+        if isinstance(argd, tuple) and argd[0] == "comp" and len(argd[2]) == 1:
+            proj_ok = isinstance(argd[2][0], tuple) and argd[2][0][0] == "unpack" and argd[2][0][2] == 1 and not argd[4]
+            src = argd[3][0] if len(argd[3]) == 1 else None
+        elif isinstance(argd, tuple) and argd[0] == "list":
+            proj_ok = all(isinstance(x, tuple) and x[0] == "unpack" and x[2] == 1 and container_of(x) == XD for x in argd[1])
+            src = XD if proj_ok else None
+        rep.ob("R-SNAPSHOT", "poll loop: the poll function receives the descriptor of every registered entry", src == XD and proj_ok, "poll_fn(%s)" % (fmt(argd) if argd is not None else None), where_of(u.fn, u.node), trace_of(p, u.seq))
+        reads = [e for e in p.evs("loop") if e.d[0] == "enter" and e.d[1] == XD and e.seq < u.seq]
+        locked = bool(reads) and all(any(l[1][0] == "attr" and l[1][1] == X for l in e.locks) for e in reads)
+        rep.ob("R-SNAPSHOT", "poll loop: snapshot taken under the executor lock", locked, "the registered entries are read without the executor lock", where_of(u.fn, u.node), trace_of(p, u.seq))
+        rep.ob("R-SNAPSHOT", "poll loop: the poll function runs outside the executor lock", not [l for l in u.locks if l[1][0] == "attr" and l[1][1] == X], "user poll function called with an executor lock held", where_of(u.fn, u.node), trace_of(p, u.seq))
+        caught = [c for c in p.evs("catch") if isinstance(c.d["exc"], tuple) and len(c.d["exc"]) > 2 and isinstance(c.d["exc"][2], tuple) and c.d["exc"][2][:1] == ("from",)]
+        waits = [e for e in p.calls() if q.call_name(e) == "wait" and it.type_of(q.recv(e), p) == "E:Event"]
+        if caught:
+            kinds.add("raised")
+            ys = [e for e in p.calls() if q.call_name(e) == "yield_exception" and e.seq > caught[0].seq]
+            fail_loops = [e for e in p.evs("loop") if e.seq > caught[0].seq and e.d[0] == "enter" and e.d[1] is not None]
+            over_snapshot = any(e.d[1] == arg or q.deref(p, e.d[1]) == argd for e in fail_loops)
+            empty = argd == ("list", ()) or any(e.d[0] == "exit" and e.d[1] == "empty" for e in p.evs("loop") if e.seq > caught[0].seq)
+            def from_snapshot(r):
+                if not isinstance(r, tuple):
+                    return False
+                if r[0] == "elem" and (r[1] == arg or q.deref(p, r[1]) == argd):
+                    return True
+                return isinstance(argd, tuple) and argd[0] == "list" and r in argd[1]
+            good = [e for e in ys if e.d["args"][:1] == (caught[0].d["exc"],) and from_snapshot(q.recv(e))]
+            ok = over_snapshot and ((len(ys) >= 1 and len(good) == len(ys)) or (not ys and empty))
+            rep.ob("R-SNAPSHOT", "poll loop: a raising poll function fails exactly the futures it was shown, with its exception", ok, "after the failure: yield_exception on %s with %s; iterates %s" % ([fmt(q.recv(e)) for e in ys], [fmt(e.d["args"][0]) for e in ys if e.d["args"]], [fmt(e.d[1]) for e in fail_loops]), where_of(caught[0].fn, caught[0].node), trace_of(p))
+            rep.ob("R-SNAPSHOT", "poll loop: the handler catches Exception", caught[0].d["names"] in (["Exception"], None), "catches %s" % caught[0].d["names"], where_of(caught[0].fn, caught[0].node))
+        elif p.status != "raise":
+            kinds.add("returned")
+            res = ("call", u.d["func"], u.d["args"], u.d["kwargs"], None)
+            for w in waits:
+                t = w.d["args"][0] if w.d["args"] else None
+                numeric = any(v for tt, v in p.branch_atoms() if isinstance(tt, tuple) and tt[0] == "call" and tt[1] == ("name", "isinstance") and tt[2][:1] == (res,))
+                ok = (t == res and numeric) or (isinstance(t, tuple) and t[0] == "attr" and t[1] == X and not numeric and t != res)
+                rep.ob("R-SNAPSHOT", "poll loop: sleeps the interval returned by the poll function, else the default", ok, "wait(%s), numeric result: %s" % (fmt(t) if t else None, numeric), where_of(w.fn, w.node), trace_of(p, w.seq))
+        else:
+            rep.ob("R-SNAPSHOT", "poll loop: an exception from the poll function never escapes the loop", False, "the poll thread dies with %s" % fmt(p.value), where_of(li.target), trace_of(p))
+    rep.require(kinds == {"raised", "returned"}, "poll loop: expected returning and raising poll paths, found %s" % sorted(kinds))
 
 
 def check(ctx, rep):
     prog = ctx.prog
-    rep.rule("R-SINGLE", "only _run_poll_fn calls the poll function, only _poll_loop calls _run_poll_fn, and _poll_loop is the target of exactly one Thread created in the constructor")
-    rep.rule("R-SNAPSHOT", "_run_poll_fn: descriptors := [d for (_, d) in self._poll_descriptors] under self._lock; poll_fn(descriptors) outside it; on exception each descriptor of *that* list gets yield_exception(<the caught exception>); the result of poll_fn is returned")
-    rep.rule("R-GUARDED", "self._poll_descriptors is appended to / re-bound only with self._lock held")
-    rep.rule("R-REGISTER", "_register_poll is called only from the success branch of PollFuture._delegate_resolved, builds PollDescriptor(future, delegate.result()), appends (future, descriptor), drops the delegate link and wakes the poll thread; PollFuture.__init__ registers the deregistering callback; _deregister_poll removes exactly the given future")
-    rep.rule("R-FIRSTWINS", "PollDescriptor.yield_result -> try_set_result(future, result); yield_exception -> copy_exception(future, exception, traceback); PollFuture.set_result / set_exception_info return without effect when already done, test and transition under one hold of the future's lock")
-    rep.rule("R-VETO", "PollFuture._me_cancel: a delegate that cannot be cancelled vetoes; otherwise _run_cancel_fn decides: no cancel_fn -> True, not in the polling stage -> True, else cancel_fn(descriptor.result) with an exception meaning False")
+    rep.rule("R-SINGLE", "the poll function is called only on paths of the poll thread's target, which is the target of exactly one Thread created in the constructor and is not called directly")
+    rep.rule("R-GUARDED", "the descriptor list is appended to / re-bound only with the executor lock held")
+    rep.rule("R-REGISTER", "polling starts only from the success branch of PollFuture's delegate callback: PollDescriptor(future, delegate.result()) appended once, then the delegate link dropped, then the poll thread woken; PollFuture's own done-callback removes exactly that future from the list and drops the executor")
+    rep.rule("R-FIRSTWINS", "PollDescriptor.yield_result -> tolerant set_result on its own future; yield_exception -> tolerant exception copy; PollFuture.set_result / set_exception_info return without effect when already done, test and transition under one hold of the future's lock")
+    rep.rule("R-VETO", "cancel() of a PollFuture: a delegate that cannot be cancelled vetoes; no cancel function or not in the polling stage -> no veto; else cancel_fn(<delegate result of this future>) decides, an exception meaning False")
     rep.rule("R-WAKE-P", "registration sets the poll event after the append; notify() sets it")
     rep.rule("R-WAKE-L", "the poll loop re-scans between clear() and the next wait()")
-    pex = prog.cls("PollExecutor")
-    pf = prog.cls("PollFuture")
+    pex, pf, li, dcb, own = roles(ctx)
     pd = prog.cls("PollDescriptor")
-    SELF = ("param", "self")
-    XL = ("attr", SELF, "_lock")
-    DESCS = ("attr", SELF, "_poll_descriptors")
+    DF = sorted(li.scanned)[0]
     callers = ctx.callgraph()
+    rep.note("poll roles: loop=%s, descriptor list=%s, delegate callback=%s, own callback=%s" % (li.target.qualname, DF, dcb.qualname, own.qualname))
+    fut = prog.cls("_Future")
 
-    # ---- R-SINGLE
-    rpf = pex.methods.get("_run_poll_fn")
-    loop = prog.fn("poll:_poll_loop")
-    sites = []
-    for fi in prog.functions.values():
-        if fi.parent is not None:
-            continue
-        for ci in ctx.instances(fi):
-            ps, it = ctx.paths(fi, ci, depth=0)
-            for p in ps:
-                for e in p.calls():
-                    f = e.d["func"]
-                    if e.fn is fi and isinstance(f, tuple) and f[0] == "attr" and f[2] == "_poll_fn":
-                        sites.append(fi.key)
-    rep.ob("R-SINGLE", "the poll function is called only from _run_poll_fn", set(sites) == {rpf.key}, "call sites: %s" % sorted(set(s.split(":")[-1] for s in sites)), where_of(rpf))
-    cs = sorted(set(k for k, _ in callers.get(rpf.key, set())))
-    rep.ob("R-SINGLE", "_run_poll_fn is called only from the poll loop", cs == [loop.key], "callers: %s" % [c.split(":")[-1] for c in cs], where_of(rpf))
-    th = [(o, t) for o, t, n, i in ctx.types.thread_targets if t is loop]
-    rep.ob("R-SINGLE", "the poll loop is the target of exactly one thread, created by PollExecutor.__init__", len(th) == 1 and th[0][0] is pex, "threads targeting _poll_loop: %d" % len(th), where_of(loop))
-    lc = sorted(set(k for k, _ in callers.get(loop.key, set())))
-    rep.ob("R-SINGLE", "the poll loop is not called directly", not lc, "callers: %s" % lc, where_of(loop))
+    # ---- R-SINGLE: where can the poll function be called from?
+    roots = []
+    for c in (pex, pf, pd):
+        for n, m in c.methods.items():
+            if not n.startswith("_") or n in ("__init__", "__call__"):
+                roots.append((m, c))
+    roots.append((fut.methods["cancel"], pf))
+    roots.append((fut.methods["add_done_callback"], pf))
+    roots.append((dcb, pf))
+    roots.append((own, pf))
+    offenders = []
+    for m, c in roots:
+        ps, it = ctx.paths(m, c, depth=DEPTH, inline=std_inline)
+        for p in ps:
+            for e in p.calls():
+                f = e.d["func"]
+                if e.d.get("user") and isinstance(f, tuple) and f[0] == "attr" and f[2] in ctx.types.tainted_fields and "poll" in f[2] and "cancel" not in f[2]:
+                    offenders.append((m, e))
+    rep.ob("R-SINGLE", "the poll function is called only by the poll thread", not offenders, "%s can call the poll function: two polls could run concurrently" % (offenders[0][0].qualname if offenders else ""), where_of(offenders[0][1].fn, offenders[0][1].node) if offenders else where_of(li.target))
+    th = [(o, t) for o, t, n, i in ctx.types.thread_targets if t is li.target]
+    rep.ob("R-SINGLE", "the poll loop is the target of exactly one thread, created by PollExecutor.__init__", len(th) == 1 and th[0][0] is pex, "threads targeting the poll loop: %d" % len(th), where_of(li.target))
+    lc = sorted(set(k for k, _ in callers.get(li.target.key, set())))
+    rep.ob("R-SINGLE", "the poll loop is not called directly", not lc, "callers: %s" % lc, where_of(li.target))
 
     snapshot_rule(ctx, rep)
-    ps, it = ctx.paths(loop, None, depth=0)
-    for p in ps:
-        waits = [e for e in p.calls() if q.call_name(e) == "wait"]
-        rc = [e for e in p.calls() if e.d["callee"] is rpf]
-        if not waits or not rc:
-            continue
-        res = ("call", rc[0].d["func"], rc[0].d["args"], rc[0].d["kwargs"], None)
-        t = waits[0].d["args"][0] if waits[0].d["args"] else None
-        numeric = any(v for tt, v in p.branch_atoms() if isinstance(tt, tuple) and tt[0] == "call" and tt[1] == ("name", "isinstance") and tt[2][:1] == (res,))
-        ok = (t == res and numeric) or (isinstance(t, tuple) and t[0] == "attr" and t[2] == "_default_interval" and not numeric)
-        rep.ob("R-SNAPSHOT", "_poll_loop sleeps the interval returned by the poll function, else the default", ok, "wait(%s), numeric result: %s" % (fmt(t) if t else None, numeric), where_of(loop, waits[0].node), trace_of(p))
 
     # ---- R-GUARDED
     ng = 0
@@ -91,103 +171,143 @@ def check(ctx, rep):
                     if e.fn is not fi:
                         continue
                     tgt = None
-                    if e.kind == "call" and q.call_name(e) in ("append", "remove", "pop", "insert", "extend", "clear") and isinstance(q.recv(e), tuple) and q.recv(e)[0] == "attr" and q.recv(e)[2] == "_poll_descriptors":
+                    if e.kind == "call" and q.call_name(e) in ("append", "remove", "pop", "insert", "extend", "clear") and isinstance(q.recv(e), tuple) and q.recv(e)[0] == "attr" and q.recv(e)[2] == DF:
                         tgt = q.recv(e)
-                    if e.kind == "store" and e.d["target"][0] == "attr" and e.d["target"][2] == "_poll_descriptors":
+                    if e.kind == "store" and e.d["target"][0] == "attr" and e.d["target"][2] == DF:
                         tgt = e.d["target"]
                     if tgt is not None and it.type_of(tgt[1], p) == "C:" + pex.key:
                         ng += 1
-                        rep.ob("R-GUARDED", "%s: descriptor list changed under the executor lock" % fi.qualname, q.has_lock(e, ("attr", tgt[1], "_lock")), "descriptor list changed without the executor lock: the poll thread's snapshot may miss or duplicate entries", where_of(fi, e.node), trace_of(p, e.seq))
+                        held = any(l[1][0] == "attr" and l[1][1] == tgt[1] for l in e.locks)
+                        if not held:
+                            cs = callers.get(fi.key, set())
+                            held = bool(cs) and _callers_hold_lock(ctx, fi, cs)
+                        rep.ob("R-GUARDED", "%s: descriptor list changed under the executor lock" % fi.qualname, held, "descriptor list changed without the executor lock: the poll thread's snapshot may miss or duplicate entries", where_of(fi, e.node), trace_of(p, e.seq))
     rep.count("mutations of the descriptor list", ng, 2)
 
-    # ---- R-REGISTER
-    reg = pex.methods.get("_register_poll")
-    dereg = pex.methods.get("_deregister_poll")
-    cs = sorted(set(k for k, _ in callers.get(reg.key, set())))
-    dr = pf.methods.get("_delegate_resolved")
-    rep.ob("R-REGISTER", "_register_poll is called only from PollFuture._delegate_resolved", cs == [dr.key], "callers: %s" % [c.split(":")[-1] for c in cs], where_of(reg))
-    ps, it = ctx.paths(dr, pf, depth=0)
-    D = ("param", dr.params[1])
+    # ---- R-REGISTER: the delegate callback
+    ps, it = ctx.paths(dcb, pf, depth=DEPTH, inline=std_inline)
+    D = ("param", dcb.params[1])
+    nreg = 0
     for p in ps:
-        rc = [e for e in p.calls() if e.d["callee"] is reg]
-        atoms = dict((fmt(t), v) for t, v in p.branch_atoms())
-        failed = None
+        if p.status == "raise":
+            continue
+        apps = [e for e in p.calls() if q.call_name(e) in ("append", "add") and isinstance(q.recv(e), tuple) and q.recv(e)[0] == "attr" and q.recv(e)[2] == DF]
+        failed = cancelled = None
         for t, v in p.branch_atoms():
             if isinstance(t, tuple) and t[0] == "call" and t[1] == ("attr", D, "exception"):
-                failed = v
-            if isinstance(t, tuple) and t[0] == "cmp" and t[1] == "is" and t[2][:2] == ("call", ("attr", D, "exception")) and t[3] == ("const", None):
-                failed = not v
-        cancelled = atoms.get("delegate.cancelled()")
-        if rc:
-            ok = len(rc) == 1 and cancelled is False and failed is False and rc[0].d["args"][0] == SELF
-            rep.ob("R-REGISTER", "PollFuture: polling starts once, only after the delegate succeeded", ok, "registered with delegate cancelled=%s failed=%s, %d times" % (cancelled, failed, len(rc)), where_of(dr), trace_of(p))
-            a1 = rc[0].d["args"][1] if len(rc[0].d["args"]) > 1 else None
-            rep.ob("R-REGISTER", "PollFuture: the descriptor is built from this delegate", a1 in (D, ("attr", SELF, "_delegate")), "second argument %s" % (fmt(a1) if a1 else None), where_of(dr))
+                failed = v if failed is None else failed
+            if isinstance(t, tuple) and t[0] == "cmp" and t[1] == "is" and isinstance(t[2], tuple) and t[2][:2] == ("call", ("attr", D, "exception")) and t[3] == ("const", None):
+                failed = (not v) if failed is None else failed
+            if isinstance(t, tuple) and t[0] == "call" and t[1] == ("attr", D, "cancelled"):
+                cancelled = v
+        if apps:
+            nreg += 1
+            ok = len(apps) == 1 and cancelled is False and failed is False
+            rep.ob("R-REGISTER", "PollFuture: polling starts once, only after the delegate succeeded", ok, "registered with delegate cancelled=%s failed=%s, %d times" % (cancelled, failed, len(apps)), where_of(dcb), trace_of(p))
+            a = apps[0]
+            entry = a.d["args"][0] if a.d["args"] else None
+            mk = [e for e in p.calls() if e.d["func"] == ("class", pd.key)]
+            okd = False
+            if len(mk) == 1 and isinstance(entry, tuple) and entry[0] == "tuple" and len(entry[1]) == 2:
+                b = bound(mk[0], prog)
+                desc = [k for k, t in p.types.items() if t == "C:" + pd.key]
+                r = b.get("result")
+                okd = entry[1][0] == SELF and entry[1][1] in desc and b.get("future") == SELF and isinstance(r, tuple) and r[0] == "call" and isinstance(r[1], tuple) and r[1][0] == "attr" and r[1][2] == "result" and r[1][1] in (D, ("attr", SELF, "_delegate"))
+            rep.ob("R-REGISTER", "PollFuture: the entry is (this future, descriptor carrying the delegate's result)", okd, "appends %s" % (fmt(entry) if entry else None), where_of(a.fn, a.node), trace_of(p, a.seq))
+            lk = any(l[1][0] == "attr" and it.type_of(l[1][1], p) == "C:" + pex.key for l in a.locks)
+            rep.ob("R-GUARDED", "registration appends under the executor lock", lk, "", where_of(a.fn, a.node))
+            sets = [e for e in p.calls() if q.call_name(e) == "set" and it.type_of(q.recv(e), p) == "E:Event"]
+            rep.ob("R-WAKE-P", "registration wakes the poll thread after the append", bool(sets) and a.seq < sets[0].seq, "", where_of(a.fn, a.node), trace_of(p))
+            drops = [e for e in p.evs("store") if e.d["target"] == ("attr", SELF, "_delegate") and e.d["value"] == ("const", None)]
+            rep.ob("R-REGISTER", "PollFuture: the delegate link is dropped on entry to the polling stage, after the entry is in the list", len(drops) == 1 and a.seq < drops[0].seq, "a cancel() between dropping the link and the append finds neither a delegate nor a descriptor: it succeeds without consulting the cancel function, and the entry appended afterwards is never removed" if drops else "the delegate link is not dropped", where_of(dcb), trace_of(p))
         elif failed:
-            ok = any(c.d["callee"] is not None and c.d["callee"].name == "copy_future_exception" and c.d["args"] == (D, SELF) for c in p.calls())
-            rep.ob("R-REGISTER", "PollFuture: a failed delegate fails the future with its exception", ok, "", where_of(dr), trace_of(p))
-    ps, it = ctx.paths(reg, pex, depth=1, inline=_pd_init)
-    FUT, DF = ("param", reg.params[1]), ("param", reg.params[2])
-    for p in ps:
-        if p.status != "return":
+            ok = any(terminal_on(e, SELF, it, p) and q.call_name(e) != "cancel" for e in p.calls()) or any(v and isinstance(t, tuple) and t[0] == "call" and t[1] == ("attr", SELF, "done") for t, v in p.branch_atoms())
+            rep.ob("R-REGISTER", "PollFuture: a failed delegate fails the future", ok, "", where_of(dcb), trace_of(p))
+    rep.require(nreg >= 1, "PollFuture delegate callback: registration path not found")
+    others = []
+    for m, c in roots:
+        if m is dcb:
             continue
-        mk = [e for e in p.calls() if e.d["func"] == ("class", pd.key)]
-        ok = len(mk) == 1 and mk[0].d["args"][0] == FUT and mk[0].d["args"][1][:2] == ("call", ("attr", DF, "result"))
-        rep.ob("R-REGISTER", "_register_poll: descriptor carries the delegate's result", ok, "PollDescriptor(%s)" % ([fmt(a) for a in mk[0].d["args"]] if mk else None), where_of(reg))
-        apps = [e for e in p.calls() if q.call_name(e) == "append" and q.recv(e) == DESCS]
-        desc = [k for k, t in p.types.items() if t == "C:" + pd.key]
-        ok = len(apps) == 1 and apps[0].d["args"][0][0] == "tuple" and apps[0].d["args"][0][1][0] == FUT and apps[0].d["args"][0][1][1] in desc
-        rep.ob("R-REGISTER", "_register_poll: appends (future, descriptor) once", ok, "", where_of(reg))
-        sets = [e for e in p.calls() if q.call_name(e) == "set" and q.recv(e) == ("attr", SELF, "_poll_event")]
-        rep.ob("R-WAKE-P", "_register_poll: wakes the poll thread after the append", bool(apps) and bool(sets) and apps[0].seq < sets[0].seq, "", where_of(reg))
-        cd = [e for e in p.calls() if q.call_name(e) == "_clear_delegate" and q.recv(e) == FUT]
-        rep.ob("R-REGISTER", "_register_poll: the delegate link is dropped on entry to the polling stage (after the append)", len(cd) == 1 and bool(apps) and apps[0].seq < cd[0].seq, "", where_of(reg))
+        ps, it = ctx.paths(m, c, depth=DEPTH, inline=std_inline)
+        for p in ps:
+            for e in p.calls():
+                if q.call_name(e) in ("append", "add") and isinstance(q.recv(e), tuple) and q.recv(e)[0] == "attr" and q.recv(e)[2] == DF:
+                    inside_cb = any(c2.d["callee"] is dcb and c2.seq < e.seq for c2 in p.calls())
+                    if not inside_cb:
+                        others.append((m, e))
+    rep.ob("R-REGISTER", "entries are appended only by the delegate callback", not others, "%s also registers for polling" % (others[0][0].qualname if others else ""), where_of(others[0][1].fn, others[0][1].node) if others else where_of(dcb))
     init = pf.methods.get("__init__")
     ps, it = ctx.paths(init, pf, depth=0)
     for p in ps:
-        own = [e for e in p.calls() if q.call_name(e) == "add_done_callback" and q.recv(e) == SELF]
-        dlg = [e for e in p.calls() if q.call_name(e) == "add_done_callback" and q.recv(e) != SELF]
-        ok = len(own) == 1 and own[0].d["args"] == (("attr", SELF, "_clear_executor"),)
-        rep.ob("R-REGISTER", "PollFuture.__init__ registers the deregistering callback on itself", ok, "", where_of(init))
-        ok = len(dlg) == 1 and dlg[0].d["args"] == (("attr", SELF, "_delegate_resolved"),) and q.recv(dlg[0]) in (("param", init.params[1]), ("attr", SELF, "_delegate"))
-        rep.ob("R-REGISTER", "PollFuture.__init__ follows its delegate", ok, "", where_of(init))
-    ce = pf.methods.get("_clear_executor")
-    ps, it = ctx.paths(ce, pf, depth=0)
-    FP = ("param", ce.params[1])
+        if p.status == "raise":
+            continue
+        regs = [e for e in p.calls() if q.call_name(e) == "add_done_callback"]
+        ownr = [e for e in regs if q.recv(e) == SELF and e.d["args"] == (("attr", SELF, own.name),)]
+        dlg = [e for e in regs if q.recv(e) != SELF and e.d["args"] == (("attr", SELF, dcb.name),)]
+        rep.ob("R-REGISTER", "PollFuture.__init__ registers the deregistering callback on itself", len(ownr) == 1, "", where_of(init))
+        rep.ob("R-REGISTER", "PollFuture.__init__ follows its delegate", len(dlg) == 1 and q.recv(dlg[0]) in (("param", init.params[1]), ("attr", SELF, "_delegate")), "", where_of(init))
+    ps, it = ctx.paths(own, pf, depth=DEPTH, inline=std_inline)
+    FP = ("param", own.params[1]) if own.is_classmethod else SELF
     for p in ps:
-        dc = [e for e in p.calls() if e.d["callee"] is dereg or q.call_name(e) == "_deregister_poll"]
-        ok = len(dc) == 1 and dc[0].d["args"] == (FP,)
+        if p.status == "raise":
+            continue
+        st = [e for e in p.evs("store") if e.d["target"][0] == "attr" and e.d["target"][2] == DF]
         clr = [e for e in p.evs("store") if e.d["target"] == ("attr", FP, "_executor") and e.d["value"] == ("const", None)]
-        rep.ob("R-REGISTER", "PollFuture done-callback deregisters this future, then drops the executor", ok and len(clr) == 1 and dc[0].seq < clr[0].seq, "", where_of(ce), trace_of(p))
-    ps, it = ctx.paths(dereg, pex, depth=0)
-    for p in ps:
-        st = [e for e in p.evs("store") if e.d["target"] == DESCS]
-        ok = len(st) == 1 and st[0].d["value"][0] == "comp" and st[0].d["value"][3] == (DESCS,)
-        conds = st[0].d["value"][4] if ok else ()
-        okc = len(conds) == 1 and conds[0].replace(" ", "") in ("fisnot%s" % dereg.params[1], "notfis%s" % dereg.params[1])
-        rep.ob("R-REGISTER", "_deregister_poll keeps every entry except the given future", ok and okc, "rebuilds with condition %s" % list(conds), where_of(dereg))
+        ok = False
+        detail = "the descriptor list is not updated"
+        for e in st:
+            v = q.deref(p, e.d["value"])
+            if isinstance(v, tuple) and v[0] == "comp" and len(v[3]) == 1 and container_of(v[3][0]) == e.d["target"]:
+                conds = [c.replace(" ", "") for c in v[4]]
+                ok = len(conds) == 1 and ("isnot" in conds[0] or conds[0].startswith("not")) and " is " in (" " + v[4][0] + " ")
+                detail = "rebuilds with condition %s" % list(v[4])
+            elif isinstance(v, tuple) and v[0] == "list":
+                kept_tests = [b for b in p.evs("branch") if isinstance(b.d[0], tuple) and b.d[0][0] == "cmp" and b.d[0][1] == "is" and any(x == FP or x == ("param", "future") for x in (b.d[0][2], b.d[0][3]))]
+                ok = bool(kept_tests) and ((len(v[1]) >= 1) == (kept_tests[-1].d[1] is False))
+                detail = "rebuilds by loop; identity test on the future: %s; kept %d" % ([(fmt(b.d[0]), b.d[1]) for b in kept_tests], len(v[1]))
+                if not kept_tests and not v[1]:
+                    ok = True  # empty list walked
+        rep.ob("R-REGISTER", "PollFuture's own done-callback keeps every entry except this future's", ok, detail, where_of(own), trace_of(p))
+        rep.ob("R-REGISTER", "PollFuture's own done-callback drops the executor after deregistering", len(clr) == 1 and (not st or st[-1].seq < clr[0].seq), "", where_of(own), trace_of(p))
 
     # ---- R-FIRSTWINS
-    for mname, helper, nargs in (("yield_result", "try_set_result", 2), ("yield_exception", "copy_exception", 3)):
+    o, dinit = pd.lookup("__init__")
+    fut_field = None
+    psi, iti = ctx.paths(dinit, pd, depth=0)
+    for pi in psi:
+        for k, v in pi.heap.items():
+            if k[0] == "attr" and k[1] == SELF and v == ("param", "future"):
+                fut_field = k[2]
+    rep.require(fut_field is not None, "PollDescriptor.__init__: field holding the future not found")
+    F = ("attr", SELF, fut_field)
+    for mname in ("yield_result", "yield_exception"):
         m = pd.methods.get(mname)
-        ps, it = ctx.paths(m, pd, depth=0)
+        rep.require(m is not None, "PollDescriptor.%s not found" % mname)
+        ps, it = ctx.paths(m, pd, depth=DEPTH, inline=std_inline, may_raise=_ise)
         for p in ps:
-            hc = [e for e in p.calls() if e.d["callee"] is not None and e.d["callee"].name == helper]
-            want = (("attr", SELF, "_PollDescriptor__future"),) + tuple(("param", x) for x in m.params[1:])
-            rep.ob("R-FIRSTWINS", "PollDescriptor.%s uses the tolerant setter on its own future" % mname, len(hc) == 1 and tuple(hc[0].d["args"]) == want, "calls %s" % [("%s(%s)" % (fmt(e.d["func"]), ", ".join(fmt(a) for a in e.d["args"]))) for e in p.calls()], where_of(m))
-    ps, it = ctx.paths(pd.methods["__init__"], pd, depth=0)
-    for p in ps:
-        rep.ob("R-FIRSTWINS", "PollDescriptor keeps the future and result it was given", p.heap.get(("attr", SELF, "_PollDescriptor__future")) == ("param", "future") and p.heap.get(("attr", SELF, "_PollDescriptor__result")) == ("param", "result"), "", where_of(pd.methods["__init__"]))
+            rep.ob("R-FIRSTWINS", "PollDescriptor.%s never raises InvalidStateError (a second yield / a cancelled future is tolerated)" % mname, not (p.status == "raise" and isinstance(p.value, tuple) and p.value[1] == "InvalidStateError"), "an InvalidStateError from the setter escapes into the user's poll function", where_of(m), trace_of(p))
+            if p.status != "return":
+                continue
+            sets = [e for e in p.calls() if q.call_name(e) in ("set_result", "set_exception", "set_exception_info") and q.recv(e) == F]
+            want = ("param", m.params[1])
+            none_given = any(v for t, v in p.branch_atoms() if isinstance(t, tuple) and t[0] == "cmp" and t[1] == "is" and t[2] == want and t[3] == ("const", None))
+            def arg_ok(a):
+                if a == want:
+                    return True
+                # yield_exception(None): the exception being handled is used
+                return none_given and isinstance(a, tuple) and a[0] == "sub" and isinstance(a[1], tuple) and a[1][0] == "call" and q.term_name(a[1][1]) == "exc_info"
+            ok = bool(sets) and all(arg_ok(e.d["args"][0]) for e in sets if e.d["args"]) and (q.call_name(sets[0]) == "set_result") == (mname == "yield_result")
+            rep.ob("R-FIRSTWINS", "PollDescriptor.%s sets the given outcome on its own future" % mname, ok, "calls %s" % [("%s(%s)" % (fmt(e.d["func"]), ", ".join(fmt(a) for a in e.d["args"]))) for e in sets], where_of(m), trace_of(p))
     FL = ("attr", SELF, "_me_lock")
     for mname in ("set_result", "set_exception_info"):
-        m = pf.methods.get(mname)
+        o, m = pf.lookup(mname)
         rep.require(m is not None, "PollFuture.%s not found" % mname)
-        ps, it = ctx.paths(m, pf, depth=0)
+        ps, it = ctx.paths(m, pf, depth=4, inline=_no_cb_inline)
         kinds = set()
         for p in ps:
             tests = [b for b in p.evs("branch") if isinstance(b.d[0], tuple) and b.d[0][0] == "call" and b.d[0][1] == ("attr", SELF, "done")]
             trans = [e for e in p.calls() if terminal_on(e, SELF, it, p)]
-            rep.ob("R-FIRSTWINS", "PollFuture.%s tests done() under the future's lock" % mname, len(tests) == 1 and q.has_lock(tests[0], FL), "", where_of(m), trace_of(p))
+            rep.ob("R-FIRSTWINS", "PollFuture.%s tests done() under the future's lock" % mname, len(tests) >= 1 and q.has_lock(tests[0], FL), "", where_of(m), trace_of(p))
             if tests and tests[0].d[1]:
                 kinds.add("second")
                 rep.ob("R-FIRSTWINS", "PollFuture.%s: a second outcome is ignored" % mname, not trans and p.status == "return", "", where_of(m), trace_of(p))
@@ -197,101 +317,83 @@ def check(ctx, rep):
                 rep.ob("R-FIRSTWINS", "PollFuture.%s: test and transition under one hold of the lock" % mname, same, "", where_of(m), trace_of(p))
         rep.ob("R-FIRSTWINS", "PollFuture.%s has both cases" % mname, kinds == {"first", "second"}, "%s" % sorted(kinds), where_of(m))
 
-    # ---- R-VETO
-    mc = pf.methods.get("_me_cancel")
-    rcf = pex.methods.get("_run_cancel_fn")
-    ps, it = ctx.paths(mc, pf, depth=0)
-    for p in ps:
-        if p.status != "return":
-            continue
-        dcs = [e for e in p.calls() if q.call_name(e) == "cancel" and q.recv(e) == ("attr", SELF, "_delegate")]
-        rc = [e for e in p.calls() if e.d["callee"] is rcf or q.call_name(e) == "_run_cancel_fn"]
-        if dcs:
-            res = ("call", dcs[0].d["func"], dcs[0].d["args"], dcs[0].d["kwargs"], None)
-            if p.assume.get(res) is False:
-                rep.ob("R-VETO", "PollFuture._me_cancel: a delegate that cannot be cancelled vetoes", p.value == ("const", False) and not rc, "", where_of(mc), trace_of(p))
-        if rc:
-            rep.ob("R-VETO", "PollFuture._me_cancel: the cancel function decides last, for this future", rc[0].d["args"] == (SELF,) and (p.value == ("call", rc[0].d["func"], rc[0].d["args"], rc[0].d["kwargs"], None)), "returns %s" % fmt(p.value), where_of(mc), trace_of(p))
-    ps, it = ctx.paths(rcf, pex, depth=0)
-    FP = ("param", rcf.params[1])
+    # ---- R-VETO: cancel() root
+    cm = fut.methods.get("cancel")
+    ps, it = ctx.paths(cm, pf, depth=DEPTH, inline=_no_cb_inline)
     kinds = set()
     for p in ps:
+        if p.status == "raise":
+            continue
+        atoms = dict((fmt(t), v) for t, v in p.branch_atoms())
+        if atoms.get("self.cancelled()") or atoms.get("self.done()"):
+            continue
+        if atoms.get("self._executor") is False:
+            continue  # the executor reference is only dropped by the future's own done-callback: not a pending future
+        dcs = [e for e in p.calls() if q.call_name(e) == "cancel" and q.recv(e) == ("attr", SELF, "_delegate")]
         ucalls = [e for e in p.calls() if e.d.get("user")]
+        stdc = [e for e in p.calls() if q.is_super_call(e, "cancel") and e.d["callee"] is None]
+        if dcs and q.truth_of(p, q.result_of(dcs[0])) is False:
+            kinds.add("delegate veto")
+            rep.ob("R-VETO", "cancel: a delegate that cannot be cancelled vetoes", p.value == ("const", False) and not ucalls and not stdc, "", where_of(cm), trace_of(p))
+            continue
         hasfn = None
         for t, v in p.branch_atoms():
-            if t == ("attr", SELF, "_cancel_fn"):
+            if isinstance(t, tuple) and t[0] == "attr" and t[2] in ctx.types.tainted_fields and "cancel" in t[2]:
                 hasfn = v
-        if hasfn is False:
-            kinds.add("no cancel_fn")
-            rep.ob("R-VETO", "_run_cancel_fn: no cancel function -> no veto", p.value == ("const", True) and not ucalls, "", where_of(rcf), trace_of(p))
-            continue
-        if not ucalls:
-            if p.status == "return":
-                kinds.add("not polling")
-                rep.ob("R-VETO", "_run_cancel_fn: future not in the polling stage -> no veto, cancel function not consulted", p.value == ("const", True), "returns %s" % fmt(p.value), where_of(rcf), trace_of(p))
-            continue
-        u = ucalls[0]
-        a = u.d["args"]
-        # the argument is the result carried by the descriptor found for this future in the descriptor list
-        ok = len(a) == 1 and isinstance(a[0], tuple) and a[0][0] == "attr" and a[0][2] == "result" and contains(a[0], ("attr", SELF, "_poll_descriptors")) and any(c.replace(" ", "") == "fis%s" % rcf.params[1] for s in subterms(a[0]) if s[0] == "comp" for c in s[4])
-        rep.ob("R-VETO", "_run_cancel_fn: the cancel function receives the delegate's result of this future", ok, "cancel_fn(%s)" % [fmt(x) for x in a], where_of(rcf, u.node), trace_of(p))
-        if p.evs("catch"):
-            kinds.add("raised")
-            rep.ob("R-VETO", "_run_cancel_fn: an exception from the cancel function vetoes", p.status == "return" and p.value == ("const", False), "returns %s (%s)" % (fmt(p.value) if p.value else None, p.status), where_of(rcf), trace_of(p))
-        elif p.status == "return":
-            kinds.add("answered")
-            rep.ob("R-VETO", "_run_cancel_fn: the cancel function's answer is returned", p.value == ("call", u.d["func"], u.d["args"], u.d["kwargs"], None), "returns %s" % fmt(p.value), where_of(rcf), trace_of(p))
+        if ucalls:
+            u = ucalls[0]
+            a = u.d["args"]
+            ad = q.deref(p, a[0]) if a else None
+            ok = len(a) == 1 and _is_result_of_this(ad, DF)
+            rep.ob("R-VETO", "cancel: the cancel function receives the delegate result recorded for this future", ok, "cancel_fn(%s)" % [fmt(x) for x in a], where_of(u.fn, u.node), trace_of(p, u.seq))
+            caught = [c for c in p.evs("catch") if c.seq > u.seq]
+            if caught:
+                kinds.add("cancel_fn raised")
+                rep.ob("R-VETO", "cancel: an exception from the cancel function vetoes", p.value == ("const", False) and not stdc, "returns %s" % fmt(p.value), where_of(cm), trace_of(p))
+            else:
+                ans = q.truth_of(p, q.result_of(u))
+                kinds.add("cancel_fn answered")
+                rep.ob("R-VETO", "cancel: the cancel function's answer decides", (bool(stdc) == bool(ans)) if ans is not None else True, "cancel_fn answered %s but the future is %s" % (ans, "cancelled" if stdc else "left alone"), where_of(cm), trace_of(p))
         else:
-            rep.ob("R-VETO", "_run_cancel_fn never raises", False, "status %s" % p.status, where_of(rcf), trace_of(p))
-    rep.ob("R-VETO", "_run_cancel_fn: all four cases present", kinds == {"no cancel_fn", "not polling", "raised", "answered"}, "%s" % sorted(kinds), where_of(rcf))
+            kinds.add("no cancel_fn" if hasfn is False else "not polling")
+            rep.ob("R-VETO", "cancel: without a cancel function / outside the polling stage there is no veto", bool(stdc), "cancel() is refused although no cancel function applies [%s]" % q.path_sig(p)[:100], where_of(cm), trace_of(p))
+    rep.ob("R-VETO", "cancel: all veto cases present", {"delegate veto", "cancel_fn raised", "cancel_fn answered", "no cancel_fn", "not polling"} <= kinds, "cases found: %s" % sorted(kinds), where_of(cm))
 
     # ---- wake-ups
     nt = pex.methods.get("notify")
-    ps, it = ctx.paths(nt, pex, depth=0)
+    rep.require(nt is not None, "PollExecutor.notify not found")
+    ps, it = ctx.paths(nt, pex, depth=3, inline=std_inline)
     for p in ps:
-        sets = [e for e in p.calls() if q.call_name(e) == "set" and q.recv(e) == ("attr", SELF, "_poll_event")]
+        sets = [e for e in p.calls() if q.call_name(e) == "set" and q.recv(e) == ("attr", SELF, li.event_field)]
         rep.ob("R-WAKE-P", "notify() sets the poll event", len(sets) == 1, "", where_of(nt))
-    loops = [l for l in wake.discover(ctx) if l.owner is pex]
-    wake.check_loops(ctx, rep, loops, components="state")
-    wake.check_producers(ctx, rep, loops)
+    wake.check_loops(ctx, rep, [li], components="state")
+    wake.check_producers(ctx, rep, [li])
 
 
-def snapshot_rule(ctx, rep):
-    prog = ctx.prog
-    pex = prog.cls("PollExecutor")
-    SELF = ("param", "self")
-    XL = ("attr", SELF, "_lock")
-    DESCS = ("attr", SELF, "_poll_descriptors")
-    rpf = pex.methods.get("_run_poll_fn")
-    rep.rule("R-SNAPSHOT", "_run_poll_fn: descriptors := [d for (_, d) in self._poll_descriptors] under self._lock; poll_fn(descriptors) outside it; on exception each descriptor of *that* list gets yield_exception(<the caught exception>); the result of poll_fn is returned")
-    # ---- R-SNAPSHOT
-    ps, it = ctx.paths(rpf, pex, depth=0)
-    kinds = set()
-    for p in ps:
-        ucalls = [e for e in p.calls() if e.d.get("user")]
-        rep.require(len(ucalls) == 1, "_run_poll_fn: expected exactly one poll function call per path")
-        u = ucalls[0]
-        arg = u.d["args"][0] if len(u.d["args"]) == 1 else None
-        ok = isinstance(arg, tuple) and arg[0] == "comp" and arg[3] == (DESCS,) and not arg[4] and len(arg[2]) == 1 and arg[2][0][:1] == ("unpack",) and arg[2][0][2] == 1
-        rep.ob("R-SNAPSHOT", "_run_poll_fn: the poll function receives the descriptor of every registered entry", ok, "poll_fn(%s)" % (fmt(arg) if arg else None), where_of(rpf, u.node), trace_of(p))
-        # snapshot evaluated under the lock: the comprehension's loop event
-        comp_loops = [e for e in p.evs("loop") if e.d[0] == "enter" and e.d[1] == DESCS]
-        rep.ob("R-SNAPSHOT", "_run_poll_fn: snapshot taken under the executor lock", bool(comp_loops) and q.has_lock(comp_loops[0], XL), "", where_of(rpf))
-        rep.ob("R-SNAPSHOT", "_run_poll_fn: the poll function runs outside the executor lock", not q.has_lock(u, XL), "user poll function called with self._lock held: yields deadlock against registration/deregistration and block every submitter", where_of(rpf, u.node))
-        caught = p.evs("catch")
-        if caught:
-            kinds.add("raised")
-            ys = [e for e in p.calls() if q.call_name(e) == "yield_exception"]
-            ok = len(ys) == 1 and isinstance(q.recv(ys[0]), tuple) and q.recv(ys[0])[0] == "elem" and q.recv(ys[0])[1] == arg and ys[0].d["args"][:1] == (caught[0].d["exc"],)
-            rep.ob("R-SNAPSHOT", "_run_poll_fn: a raising poll function fails exactly the futures it was shown, with its exception", ok, "yield_exception on %s with %s" % ([fmt(q.recv(e)) for e in ys], [fmt(e.d["args"][0]) for e in ys if e.d["args"]]), where_of(rpf), trace_of(p))
-            rep.ob("R-SNAPSHOT", "_run_poll_fn: handler catches Exception", caught[0].d["names"] in (["Exception"], None), "catches %s" % caught[0].d["names"], where_of(rpf))
-            rep.ob("R-SNAPSHOT", "_run_poll_fn does not raise", p.status == "return", "status %s" % p.status, where_of(rpf))
-        elif p.status == "return":
-            kinds.add("returned")
-            res = ("call", u.d["func"], u.d["args"], u.d["kwargs"], None)
-            rep.ob("R-SNAPSHOT", "_run_poll_fn returns the poll function's value (next interval)", p.value == res, "returns %s" % fmt(p.value), where_of(rpf))
-    rep.require(kinds == {"raised", "returned"}, "_run_poll_fn: expected returning and raising paths")
-
-
-def _pd_init(callee, ev, path):
+def _is_result_of_this(ad, DF):
+    """ad is <descriptor found for this future in the descriptor list>.result"""
+    if not (isinstance(ad, tuple) and ad[0] == "attr" and ad[2] == "result"):
+        return False
+    for s in subterms(ad):
+        if s[0] == "attr" and s[2] == DF:
+            return True
     return False
+
+
+def _ise(ev, interp, path):
+    from .c18 import may_raise
+    return [x for x in may_raise(ev, interp, path) if x == "InvalidStateError"]
+
+
+def _callers_hold_lock(ctx, fi, cs):
+    for ck, cik in cs:
+        cfi = ctx.prog.functions[ck]
+        cci = ctx.prog.classes.get(cik) if cik else None
+        ps, it = ctx.paths(cfi, cci, depth=0)
+        for p in ps:
+            for e in p.calls():
+                if e.d["callee"] is fi and e.fn is cfi:
+                    r = q.recv(e)
+                    if not (r is not None and any(l[1][0] == "attr" and l[1][1] == r for l in e.locks)):
+                        return False
+    return True
